@@ -154,6 +154,16 @@ def element_junction_tuples(include_node_elements=True, include_branch_elements=
     return ejts
 
 
+def _holds_junction_label(net, element, column):
+    """
+    Mask of the rows of net[element] whose entry in `column` is a junction index. Only
+    valve.element is special: for valves attached to a pipe (et == "pi") it is a pipe index.
+    """
+    if element == "valve" and column == "element":
+        return (net[element]["et"] != "pi").values
+    return np.ones(len(net[element]), dtype=bool)
+
+
 def pp_elements(junction=True, include_node_elements=True, include_branch_elements=True,
                 include_res_elements=False, net=None):
     """
@@ -261,7 +271,8 @@ def reindex_elements(net, element, lookup):
     if element == "junction":
         for element, value in element_junction_tuples(net=net):
             if element in net.keys():
-                net[element][value] = get_indices(net[element][value], lookup)
+                rows = net[element].index[_holds_junction_label(net, element, value)]
+                net[element].loc[rows, value] = get_indices(net[element].loc[rows, value], lookup)
     elif element == "pipe":
         if "valve" in net:
             pipe_valves = net["valve"].loc[net["valve"]["et"] == "pi", "element"]
@@ -366,7 +377,8 @@ def fuse_junctions(net, j1, j2, drop=True):
     j2 = set(j2) - {j1} if isinstance(j2, Iterable) else [j2]
 
     for element, value in element_junction_tuples(net=net):
-        i = net[element][net[element][value].isin(j2)].index
+        i = net[element][net[element][value].isin(j2)
+                         & _holds_junction_label(net, element, value)].index
         net[element].loc[i, value] = j1
 
     if drop:
@@ -405,8 +417,12 @@ def select_subnet(net, junctions, include_results=False, keep_everything_else=Fa
     comp_junc_rows = {tbl: [jr for el, jr in comp_tuples if el == tbl] for tbl in
                       set([v[0] for v in comp_tuples])}
     for comp_tbl, junc_rows in comp_junc_rows.items():
-        isin_all = np.all([net[comp_tbl][jr].isin(junctions) for jr in junc_rows], axis=0)
+        isin_all = np.all([net[comp_tbl][jr].isin(junctions) | ~_holds_junction_label(net, comp_tbl, jr)
+                           for jr in junc_rows], axis=0)
         p2[comp_tbl] = net[comp_tbl][isin_all]
+    if "valve" in p2 and "pipe" in p2:
+        # valves attached to a pipe follow their pipe
+        p2["valve"] = p2["valve"][(p2["valve"]["et"] != "pi") | p2["valve"]["element"].isin(p2["pipe"].index)]
 
     if include_results:
         for table in net.keys():
@@ -480,8 +496,9 @@ def drop_elements_at_junctions(net, junctions, node_elements=True, branch_elemen
     """
     for element, column in element_junction_tuples(node_elements, branch_elements,
                                                    include_res_elements=False, net=net):
-        if any(net[element][column].isin(junctions)):
-            eid = net[element][net[element][column].isin(junctions)].index
+        hit = net[element][column].isin(junctions) & _holds_junction_label(net, element, column)
+        if any(hit):
+            eid = net[element][hit].index
             if element == 'pipe':
                 drop_pipes(net, eid)
             # elif element == 'trafo' or element == 'trafo3w':
